@@ -157,7 +157,7 @@ func BitmapTypes(t *rapid.T, o *Opts) []uint16 {
 		default:
 			v = uint16(rapid.IntRange(0, 65535).Draw(t, "rt"))
 		}
-		if (v == 0 || v == 65535) && o.avoid("bitmap-type-0-65535") {
+		if (v == 0 || v == 65535) && o.avoid("type-mnemonic-none-reserved") {
 			continue
 		}
 		if o.Level == Presentable && o.avoid("bitmap-unknown-mnemonic-clash") {
@@ -205,11 +205,19 @@ func GenField(t *rapid.T, typ uint16, spec wm.FieldSpec, prev []wm.Field, o *Opt
 			}
 		case "locsize":
 			if pres {
-				f.U = uint64(rapid.IntRange(0, 9).Draw(t, "mant"))<<4 | uint64(rapid.IntRange(0, 9).Draw(t, "exp"))
+				m := uint64(rapid.IntRange(0, 9).Draw(t, "mant"))
+				e := uint64(rapid.IntRange(0, 9).Draw(t, "exp"))
+				if m == 0 {
+					e = 0 // 0 x 10^e has a single presentation, "0.00m"
+				}
+				f.U = m<<4 | e
 			}
 		}
 	case wm.U16:
 		f.U = UintB(t, 16)
+		if spec.Hint == "type" && (f.U == 0 || f.U == 65535) && o.avoid("type-mnemonic-none-reserved") {
+			f.U = 1
+		}
 	case wm.U32:
 		f.U = UintB(t, 32)
 		if pres {
@@ -287,6 +295,9 @@ func GenField(t *rapid.T, typ uint16, spec wm.FieldSpec, prev []wm.Field, o *Opt
 			f.B = Bytes(t, 20, false)
 		} else {
 			f.B = Bytes(t, Len(t, 0, 255), false)
+			if len(f.B) > 127 && pres && typ == wm.TNSEC3 && o.avoid("length-octet-over-127") {
+				f.B = f.B[:127]
+			}
 		}
 	case wm.L16:
 		f.B = Bytes(t, Len(t, 0, 300), false)
@@ -320,6 +331,9 @@ func GenField(t *rapid.T, typ uint16, spec wm.FieldSpec, prev []wm.Field, o *Opt
 			lo = 1
 		}
 		f.B = Bytes(t, Len(t, lo, 255), false)
+		if len(f.B) > 127 && pres && o.avoid("length-octet-over-127") {
+			f.B = f.B[:127]
+		}
 		f.B2 = Bytes(t, Len(t, lo, 300), false)
 	case wm.APLs:
 		n := rapid.IntRange(0, 4).Draw(t, "napl")
